@@ -393,4 +393,132 @@ theorem retain_tie (dr : Bool) (empty c : Cols) (keep : Nat → Bool) (boom : Op
   · rw [run_unit _ _ _ retain_stmts.2.2.2 (by intro m; simp [leftovers, leftovers.go]), retain_stmts.2.1]
     exact key "get_mut" (Or.inr rfl)
 
+/-! ## `resize`: reserve, `new_len - len - 1` clones pushed, then the value itself; or `truncate` -/
+
+theorem ev_append_def (a b : Ev) : a ++ b = ⟨a.drops ++ b.drops, a.dropT ++ b.dropT, a.clones ++ b.clones⟩ := rfl
+
+theorem push_ok {c e : Cols} {n : Nat} (hc : c.lock n) (he : e.lock 1) (hs : c.same e) :
+    (Model.push c e).panicked = false ∧ (Model.push c e).st.lock (n + 1) ∧ c.same (Model.push c e).st := by
+  unfold Model.push
+  cases perField appendOp c e n 1 hc he hs with
+  | ok s hrun _ hp hst _ hl _ hsm _ =>
+    have hlen := rows_len n c hc
+    have hel := rows_len 1 e he
+    simp only [appendOp, PolyOp.ofTotal_run, ↓reduceIte, Option.some.injEq] at hrun
+    subst hrun
+    simp only at hst
+    exact ⟨hp, lock_of_rows_len hl (by rw [hst]; simp [hlen, hel]), hsm⟩
+  | fail _ hfail _ _ _ => simp [appendOp] at hfail
+
+theorem extend_replicate_ok {e : Cols} (he : e.lock 1) : ∀ (j : Nat) (c : Cols) (n : Nat), c.lock n → c.same e →
+    (Model.extend c (List.replicate j e)).panicked = false ∧ (Model.extend c (List.replicate j e)).st.lock (n + j) ∧
+      (Model.extend c (List.replicate j e)).st.same e
+  | 0, c, n, hc, hs => by simp [Model.extend, hc, hs]
+  | j + 1, c, n, hc, hs => by
+    obtain ⟨hp, hl, hsm⟩ := push_ok hc he hs
+    have hs' : (Model.push c e).st.same e := same_trans _ _ _ (same_symm _ _ hsm) hs
+    have ih := extend_replicate_ok he j (Model.push c e).st (n + 1) hl hs'
+    simp only [List.replicate_succ, Model.extend, hp, Bool.false_eq_true, ↓reduceIte]
+    exact ⟨ih.1, by have := ih.2.1; rwa [show n + 1 + j = n + (j + 1) by omega] at this, ih.2.2⟩
+
+/-- pushing `j` copies and then one more is pushing `j + 1` copies -/
+theorem extend_replicate_succ {e : Cols} (he : e.lock 1) : ∀ (j : Nat) (c : Cols) (n : Nat), c.lock n → c.same e →
+    (Model.extend c (List.replicate (j + 1) e)).st = (Model.push (Model.extend c (List.replicate j e)).st e).st
+  | 0, c, n, hc, hs => by
+    obtain ⟨hp, _, _⟩ := push_ok hc he hs
+    simp [Model.extend, hp]
+  | j + 1, c, n, hc, hs => by
+    obtain ⟨hp, hl, hsm⟩ := push_ok hc he hs
+    have hs' : (Model.push c e).st.same e := same_trans _ _ _ (same_symm _ _ hsm) hs
+    have ih := extend_replicate_succ he j (Model.push c e).st (n + 1) hl hs'
+    rw [List.replicate_succ, Model.extend]
+    simp only [hp, Bool.false_eq_true, ↓reduceIte]
+    rw [ih]
+    conv => rhs; rw [List.replicate_succ, Model.extend]
+    simp only [hp, Bool.false_eq_true, ↓reduceIte]
+
+def rszBody : List St := [(.expr (.mcall .self_ "push" [(.mcall (.mcall (.param 1) "as_ref" []) "to_owned" [])]))]
+
+def rszStmts : List St :=
+  [(.let_ "len" (.mcall .self_ "len" [])),
+   (.ite (.bin ">" (.param 0) (.var "len"))
+      [(.expr (.mcall .self_ "reserve" [(.bin "-" (.param 0) (.var "len"))])),
+       (.forIn "_" (.range (.bin "+" (.var "len") (.num 1)) (.param 0)) rszBody),
+       (.expr (.mcall .self_ "push" [(.param 1)]))]
+      [(.expr (.mcall .self_ "truncate" [(.param 0)]))])]
+
+theorem resize_stmts : lp_PVec_resize.stmts = rszStmts ∧ lp_PVec_resize.tail = none := ⟨rfl, rfl⟩
+
+section resize
+variable (dr : Bool) (empty : Cols) (k : Nat) (e : Cols)
+
+def rszEnv (fuel : Nat) : Env := { dr := dr, ps := [.nat k, .elem e], M := modelMethods dr empty, fuel := fuel }
+
+def rszIter (fuel : Nat) : Nat → Mach → Res Unit := fun i m =>
+  (execList (rszEnv dr empty k e fuel) rszBody { m with locals := ("_", .nat i) :: m.locals }).bind fun _ m =>
+    .ok () { m with locals := m.locals.drop 1 }
+
+theorem resize_loop (he : e.lock 1) (F : Nat) : ∀ (j i : Nat) (c : Cols) (n : Nat) (m : Mach), c.lock n → c.same e → m.self = c →
+    forRange (rszIter dr empty k e F) i j m =
+      .ok () { m with self := (Model.extend c (List.replicate j e)).st,
+                      ev := m.ev ++ { clones := (List.replicate j e.flat).flatten } }
+  | 0, i, c, n, m, hc, hs, hm => by
+    subst hm
+    cases m with | mk self locals movedPs ev vis made calls =>
+    cases ev
+    simp [forRange, Model.extend, ev_append_def]
+  | j + 1, i, c, n, m, hc, hs, hm => by
+    obtain ⟨hp, hl, hsm⟩ := push_ok hc he hs
+    have hs' : (Model.push c e).st.same e := same_trans _ _ _ (same_symm _ _ hsm) hs
+    have hev : (Model.push c e).ev = {} := rfl
+    have ih := resize_loop he F j (i + 1) (Model.push c e).st (n + 1)
+      { m with self := (Model.push c e).st, ev := m.ev ++ { clones := e.flat } } hl hs' rfl
+    simp only [forRange]
+    simp [rszIter, rszBody, rszEnv, execList, exec, eval, evalList, callSelf, callOther, afterSelf, moveArg, modelMethods, asParam, asVar,
+      hm, hp, hev, dropV] at ih ⊢
+    rw [ih]
+    simp [List.replicate_succ, Model.extend, hp, ev_append_def, List.append_assoc]
+
+end resize
+
+/-- **`resize`** as extracted = `Model.resize` -/
+theorem resize_tie (dr : Bool) (empty c e : Cols) (k n fuel : Nat) (hc : c.lock n) (he : e.lock 1) (hs : c.same e) :
+    run { dr := dr, ps := [.nat k, .elem e], M := modelMethods dr empty, fuel := fuel } lp_PVec_resize c =
+      some (Model.resize dr c k e) := by
+  have hfl := firstLen_lock c n hc
+  have hM : (rszEnv dr empty k e fuel).M = modelMethods dr empty := rfl
+  have hlen : (modelMethods dr empty).len = Cols.firstLen := rfl
+  have htr : (modelMethods dr empty).truncate = Model.truncate dr := rfl
+  have hpush : (modelMethods dr empty).push = Model.push := rfl
+  have hps : (rszEnv dr empty k e fuel).ps = [.nat k, .elem e] := rfl
+  have hdr : (rszEnv dr empty k e fuel).dr = dr := rfl
+  show run (rszEnv dr empty k e fuel) lp_PVec_resize c = _
+  unfold run
+  rw [resize_stmts.1, resize_stmts.2]
+  simp only [rszStmts, execList, exec, eval, evalList, callSelf, callOther, hM, hlen, htr, hps, hdr, Res.bind_ok, lookup,
+    String.reduceEq, ↓reduceIte, List.getElem?_cons_zero, arith, hfl, Model.resize]
+  by_cases hk : k > n
+  · have hle : n ≤ k := by omega
+    have hloop := resize_loop dr empty k e he fuel (k - (n + 1)) (n + 1) c n
+      { self := c, locals := [("len", V.nat n)], ev := {} ++ dropV dr V.unit } hc hs rfl
+    unfold rszIter at hloop
+    obtain ⟨hp0, hl0, hs0⟩ := extend_replicate_ok he (k - (n + 1)) c n hc hs
+    obtain ⟨hp1, _, _⟩ := push_ok hl0 he hs0
+    have hsucc := extend_replicate_succ he (k - (n + 1)) c n hc hs
+    have hkn : k - (n + 1) + 1 = k - n := by omega
+    have hall := extend_replicate_ok he (k - n) c n hc hs
+    have hdec : decide (n < k) = true := by simpa using hk
+    simp only [hdec, hle, ↓reduceIte, Res.bind_ok, execList, exec, eval, evalList, callSelf, String.reduceEq, lookup, arith,
+      hM, hps, List.getElem?_cons_zero, List.getElem?_cons_succ, gt_iff_lt]
+    rw [hloop, if_pos (show n < k from hk)]
+    have hkn' : k - n - 1 = k - (n + 1) := by omega
+    simp [afterSelf, moveArg, asParam, asVar, hpush, hp1, dropV, leftovers, leftovers.go, hps, hdr,
+      lookup, arith, eval, evalList, callSelf, execList, exec, hM, ev_append_def, hall.1, hkn']
+    rw [← hkn, hsucc]
+    exact ⟨rfl, rfl, rfl, rfl⟩
+  · obtain ⟨tst, tpan, tev, hsT⟩ : ∃ a b x, Model.truncate dr c k = { st := a, panicked := b, ev := x } :=
+      ⟨_, _, _, truncate_shape dr c k⟩
+    simp [hk, afterSelf, hsT, dropV, leftovers, leftovers.go, hps, hdr]
+    cases tpan <;> simp [ev_append_def]
+
 end Soa.Lp
